@@ -296,4 +296,53 @@ theorem loop_collision_reported (R : Res) (fuel : Nat) (mods : Array Nat) (s : P
   · exact h this.1
   · exact this.2 h
 
+/-! ### sufficient, decidable conditions for the hypotheses (used by the non-vacuity examples) -/
+
+theorem nodup_of_names (l : List Entry) (h : (l.map (·.d.name)).Nodup) : l.Nodup := by
+  induction l with
+  | nil => exact List.nodup_nil
+  | cons x xs ih =>
+    simp only [List.map_cons, List.nodup_cons] at h ⊢
+    exact ⟨fun hm => h.1 (List.mem_map.mpr ⟨x, hm, rfl⟩), ih h.2⟩
+
+theorem pendingOf_cases (s : PState) (id : Nat) : s.pendingOf id = [] ∨ ∃ p ∈ s.pending, p.1 = id ∧ s.pendingOf id = p.2 := by
+  unfold PState.pendingOf
+  cases hf : s.pending.find? (·.1 == id) with
+  | none => exact Or.inl rfl
+  | some p =>
+    right
+    exact ⟨p, List.mem_of_find?_eq_some hf, by simpa using List.find?_some hf, rfl⟩
+
+theorem nodupPending_of (s : PState) (h : ∀ p ∈ s.pending, (p.2.map (·.d.name)).Nodup) : NodupPending s := by
+  intro id
+  rcases pendingOf_cases s id with h0 | ⟨p, hp, _, h1⟩
+  · rw [h0]; exact List.nodup_nil
+  · rw [h1]; exact nodup_of_names _ (h p hp)
+
+theorem cover_of (s : PState) (mods : Array Nat) (h : ∀ p ∈ s.pending, p.1 ∈ mods.toList) : Cover s mods := by
+  intro id hne
+  rcases pendingOf_cases s id with h0 | ⟨p, hp, hid, _⟩
+  · exact absurd h0 hne
+  · rw [← hid]; exact h p hp
+
+theorem noDupErr_of (f : Forest) (h : ∀ t ∈ f.trees, t.2.allErrors = []) :
+    ∀ er, FVisErr f er → er.cls ≠ "duplicate-node" := by
+  rintro er ⟨id, root, hr, hv⟩
+  have := hv.allErrors
+  unfold Forest.tree? at hr
+  cases hf : f.trees.find? (·.1 == id) with
+  | none => simp [hf] at hr
+  | some x =>
+    simp only [hf, Option.map_some, Option.some.injEq] at hr
+    have h0 := h x (List.mem_of_find?_eq_some hf)
+    rw [hr] at h0
+    rw [h0] at this
+    cases this
+
+/-- The model's fuel: with distinct keys in the pending table `processAll`'s `total + 2` exceeds
+the measure. -/
+theorem fuel_sufficient (s : PState) (hk : (keys s).Nodup) :
+    mu s < s.pending.foldl (fun n p => n + p.2.length) 0 + 2 := by
+  rw [mu_eq_total s hk]; omega
+
 end Goyang.Lemmas.Augment
